@@ -172,6 +172,7 @@ struct GenOpts {
                                    ///< structures (multiples of 64 and 4096, powers of two, +-3)
     bool far_tail = false;         ///< floating keys (PGMIndex checks): 1 array in 8 has its tail (from a positive key on) multiplied by 2^20..2^90: keys
                                    ///< whose distance from the preceding ones is astronomically larger than the local spacing (offsets beyond 2^63)
+    bool ef_bimodal_often = false; ///< C17 (few cases per run): the bimodal class for 1 large case in 2 instead of 1 in 6
     bool allow_giant = false;      ///< about 1 case in 400: n around / above 2^24 built from <= 300 distinct keys with huge duplicate runs (ranks > 2^24)
     size_t span_multiple_edge = 0; ///< Bucketing: 1/4 of the arrays end so that (last - first) is m*M + d, d in {-1,0,+1}, M = this value
     bool pow2_span_edge = false; ///< Elias-Fano: 1/4 of the arrays end so that (last segment key - first key) is 2^k-3 .. 2^k (universe-size edge)
@@ -226,9 +227,15 @@ std::vector<K> gen_keys(TapeReader &t, const GenOpts &o, KeyMeta &meta) {
 
     // ---- "bimodal" class for Elias-Fano: a cluster of g-key groups separated by wildly varying jumps (=> minimal segments) followed by a
     //      sparse tail that makes the universe - and so the bucket width of the code - astronomically larger than the cluster
-    if (!o.xkeys && sizeof(K) == 8 && !std::is_floating_point_v<K> && (o.force_bimodal || (o.ef_bimodal && o.size_hint >= 96 && t.chance(1, 6)))) {
+    if (!o.xkeys && sizeof(K) == 8 && !std::is_floating_point_v<K> && (o.force_bimodal || (o.ef_bimodal && o.size_hint >= (o.ef_bimodal_often ? 88u : 96u) && t.chance(1, o.ef_bimodal_often ? 2 : 6)))) {
         size_t groups = 60000 + t.below(140000);
         size_t g = eps + 1 + t.below(eps + 1); // eps+1 .. 2*eps+1 consecutive keys per group
+        // variant (small epsilon only, half of the cases): the cluster consists of 110 000 .. 310 000 groups of 2*eps+2 keys separated by
+        // jumps no segment can bridge (the exact_segments construction), i.e. that many SEGMENTS inside a few hundred Elias-Fano
+        // buckets: more ones between 4096 consecutive zeros than log^4 of the vector length, a full long superblock of the select-0 support
+        const bool exact_cluster = (2 * eps + 2) * 310000 <= (size_t(1) << 23) && t.chance(1, 2);
+        const i128 ec_jmin = (i128) (4 * eps + 4) * (i128) (2 * eps + 2) * 2;
+        if (exact_cluster) groups = 110000 + t.below(200000), g = 2 * eps + 2;
         size_t tail = 2000 + t.below(40000);
         unsigned jb = 4 + (unsigned) t.below(12), tb = 30 + (unsigned) t.below(22);
         bool cluster_first = t.chance(1, 3);
@@ -249,7 +256,7 @@ std::vector<K> gen_keys(TapeReader &t, const GenOpts &o, KeyMeta &meta) {
         if (!cluster_first) sparse(tail / 2);
         meta.block_starts.push_back(keys.size());
         for (size_t G = 0; G < groups; ++G) {
-            i128 jump = 2 + (i128) (pr.next() & ((uint64_t(1) << pr.below(jb + 1)) - 1));
+            i128 jump = exact_cluster ? ec_jmin + (i128) (pr.next() % (uint64_t) ec_jmin) : 2 + (i128) (pr.next() & ((uint64_t(1) << pr.below(jb + 1)) - 1));
             if (lat.hi - cur < jump + (i128) g) break;
             cur += jump;
             for (size_t i = 0; i < g; ++i) keys.push_back(lat.to_key(cur + (i128) i));
@@ -262,7 +269,7 @@ std::vector<K> gen_keys(TapeReader &t, const GenOpts &o, KeyMeta &meta) {
         meta.chunks = chunk_count(meta.n, meta.threads);
         for (size_t i = 1; i < meta.chunks; ++i) meta.seams.push_back(i * (meta.n / meta.chunks));
         meta.query_seed = t.bits(64);
-        rec << "class=bimodal groups=" << groups << "x" << g << " jumps<2^" << jb << " tail=" << tail << " gaps~2^" << tb << " threads=" << meta.threads;
+        rec << "class=bimodal" << (exact_cluster ? "(exact cluster)" : "") << " groups=" << groups << "x" << g << " jumps<2^" << jb << " tail=" << tail << " gaps~2^" << tb << " threads=" << meta.threads;
         meta.recipe = rec.str();
         for (size_t i = 1; i < keys.size(); ++i)
             if (keys[i] < keys[i - 1]) throw HarnessBug("bimodal class: unsorted");
